@@ -46,6 +46,11 @@ pub fn survives(f: impl FnOnce()) -> bool {
 /// Shape of n2's syntax diagnostics:
 /// `parse error: <msg>\n<file>:<line>: <excerpt>\n<spaces>^\n`, line within the file, caret under the excerpt.
 pub fn check_parse_error_shape(text: &str, file: &str, input_lines: usize) -> Result<(), String> {
+    check_parse_error_shape_x(text, file, input_lines, true)
+}
+
+/// `strict_caret` = the input is valid UTF-8, so byte columns of caret and excerpt are comparable.
+pub fn check_parse_error_shape_x(text: &str, file: &str, input_lines: usize, strict_caret: bool) -> Result<(), String> {
     let Some(rest) = text.strip_prefix("parse error: ") else { return Err("does not start with `parse error: `".into()) };
     let lines: Vec<&str> = rest.split('\n').collect();
     // the message itself may not contain a newline except for quoted characters like '\n' (escaped by {:?})
@@ -66,7 +71,7 @@ pub fn check_parse_error_shape(text: &str, file: &str, input_lines: usize) -> Re
     let col = caret.len() - 1;
     let start = prefix.len() + num.len() + 2;
     // the caret points into the excerpt or just past its end (errors at end of line)
-    if col < start || col > start + excerpt.len() + 3 {
+    if strict_caret && (col < start || col > start + excerpt.len() + 3) {
         return Err(format!("caret column {} outside the excerpt columns {}..={}", col, start, start + excerpt.len()));
     }
     Ok(())
